@@ -26,8 +26,9 @@ RULE = ("random vertex/connectivity/mask triples, 1-60 vertices (thorough: up to
         "chain / star / caterpillar / binary / broom, vertex numbering shuffled (parent index may exceed child index), "
         "dyadic coordinates (k/8, exact), masks none / with floating roots / wrong length; every new root for each tree and "
         "chains of 3 re-rootings; single morphologies and documents with 0-3 cells + 0-3 stand-alone morphologies "
-        "(ids None / distinct / colliding). A case is non-trivial when the tree has >= 3 vertices and is neither a plain "
-        "0..n chain nor in identity numbering only (morph/toroot), or the document holds >= 2 morphologies (doc); "
+        "(ids None / distinct / colliding). A case is non-trivial when it lies in the property's scope and: the tree has "
+        ">= 3 vertices and is not the plain chain -1,0,1,.. (morph); additionally the new root is a valid non-root vertex "
+        "(toroot); the document holds >= 2 morphologies / the single morphology >= 2 vertices (file). "
         "distinct = distinct canonical case descriptions")
 TRUST = [
     "hand-written model of ArrayMorphology.to_root / segment_from_vertex_index / to_neuroml_morphology, SegmentList "
@@ -533,6 +534,7 @@ def run_cases(ctx, morphs, toroots, files):
     if rc != 0 or len(out) != len(lines):
         ctx.disagree("driver", "driver failed rc=%s (%d lines in, %d out)" % (rc, len(lines), len(out)), "\n".join(out[-5:]), None)
         out = ['{"error":"driver"}'] * len(lines)
+    sampled = {}
     for p, o in zip(plan, out):
         try:
             mo = json.loads(o)
@@ -540,11 +542,23 @@ def run_cases(ctx, morphs, toroots, files):
             mo = {"error": o[:200]}
         if p[0] == "morph":
             check_morph(ctx, p[1], p[2], p[3], p[4], mo)
-            ctx.sample({"stream": "morph", "n": len(p[1]["c"]), "c": p[1]["c"][:12], "m": p[1]["m"] and p[1]["m"][:12]})
+            if p[1].get("kind") and sampled.setdefault("morph", 0) < 2:
+                sampled["morph"] += 1
+                ctx.sample({"stream": "morph", "kind": p[1]["kind"], "shape": p[1]["shape"], "n": len(p[1]["c"]),
+                            "c": p[1]["c"][:16], "m": p[1]["m"] and p[1]["m"][:16], "idx": p[2]})
         elif p[0] == "toroot":
             check_toroot(ctx, p[1], p[2], p[3], p[4], p[5], mo, p[6])
+            if p[1].get("kind") and len(p[3]) >= 5 and sampled.setdefault("toroot", 0) < 2:
+                sampled["toroot"] += 1
+                ctx.sample({"stream": "toroot", "c": p[3][:16], "new_root": p[4],
+                            "after": (p[5].get("arr") or {}).get("c", p[5]["res"])[:16]})
         else:
             check_file(ctx, p[1], p[2], mo)
+            if "cells" in p[1] and len(p[1]["cells"]) + len(p[1]["morphs"]) >= 3 and sampled.setdefault("doc", 0) < 2:
+                sampled["doc"] += 1
+                ctx.sample({"stream": "doc", "cells": [[c["id"], c["mid"], len(c["c"])] for c in p[1]["cells"]],
+                            "morphs": [[m["id"], len(m["c"])] for m in p[1]["morphs"]], "result": p[2]["res"],
+                            "loaded_sizes": [len(m["c"]) for m in p[2].get("morphs", [])]})
 
 
 V4 = [[0, 0, 0, 8], [8, 0, 0, 16], [16, 0, 0, 24], [24, 0, 0, 32]]
